@@ -21,7 +21,7 @@ for c, ln, a, b in zip(cases, lines, impl, res):
     if why:
         bad += 1
         if bad <= 6: print("ORACLE", why, "\n  case", ln[:600], "\n  impl", (a or "")[:600])
-    if b is None or b == 'SKIP' or a == b: continue
+    if b is None or b == 'SKIP' or (P.equal(a, b) if hasattr(P, 'equal') else a == b): continue
     if P.obs(a) == P.obs(b):
         drift += 1
         for x, y in zip(a.split(" | "), b.split(" | ")):
